@@ -27,9 +27,14 @@ static const char spf_delimiters[] = ".-+,/_=";
 
 #define WRITEl(fd, s, l) \
 	do { \
-		ssize_t rc = write((fd), (s), (l)); \
-		if (rc == -1) \
-			return (int)rc; \
+		const ssize_t wlen = (l); \
+		const ssize_t rc = write((fd), (s), wlen); \
+		if (rc != wlen) { \
+			/* a short write means the header is incomplete */ \
+			if (rc >= 0) \
+				errno = EPIPE; \
+			return -1; \
+		} \
 	} while (0)
 #define WRITE(fd, s) WRITEl((fd), (s), strlen(s))
 
